@@ -120,6 +120,14 @@ theorem key_block (st : State) (i : Nat) : key ((block st i).getD st) = key st :
   repeat' split
   all_goals simp only [Option.getD_some, Option.getD_none, key_settle, key_complete, key_incoming, key_conn, key_foldl_receive, key_wire]
 
+theorem key_dispatchBlock (st : State) (i : Nat) : key (dispatchBlock st i).1 = key st := by
+  unfold dispatchBlock
+  split
+  · exact key_dispatch st
+  · split
+    · exact key_dispatch st
+    · exact (key_block (dispatch st) i).trans (key_dispatch st)
+
 /-- the invariant: every registered serial, and the serial a failed send has left on its message, was handed out by the
     counter before its present value, and they are pairwise distinct -/
 structure SerInv (st : State) : Prop where
@@ -241,6 +249,7 @@ theorem serInv_step (st : State) (ev : Ev) (h : SerInv st) (hp : noPreset ev = t
   | fire i => exact ⟨serInv_of_key (key_fire st i) h, by show _ ≤ _; rw [show (step st (.fire i)).nextSerial = st.nextSerial from next_of_key (key_fire st i)]; simp [takes]⟩
   | cancel i => exact ⟨serInv_of_key (key_cancel st i) h, by show _ ≤ _; rw [show (step st (.cancel i)).nextSerial = st.nextSerial from next_of_key (key_cancel st i)]; simp [takes]⟩
   | block i => exact ⟨serInv_of_key (key_block st i) h, by show _ ≤ _; rw [show (step st (.block i)).nextSerial = st.nextSerial from next_of_key (key_block st i)]; simp [takes]⟩
+  | dispatchBlock i => exact ⟨serInv_of_key (key_dispatchBlock st i) h, by show _ ≤ _; rw [show (step st (.dispatchBlock i)).nextSerial = st.nextSerial from next_of_key (key_dispatchBlock st i)]; simp [takes]⟩
   | closePeer => exact ⟨serInv_of_key (st := st) (st' := step st .closePeer) rfl h, by simp [step, takes]⟩
 
 def totalTakes (h : List Ev) : Nat := (h.map takes).sum
